@@ -174,15 +174,28 @@ def job_fn(job):
     pm = make_model(job['kind'], job['seed'])
     spec = explicit_spec(pm)
     out = dict(status='ok', exp_spec=spec)
+    ckw = {}
     if job['build'] == 'population':
         ct = build_population(pm)
         vec = True
+        if job.get('node_values'):
+            # values given at translation time (node_values) for population variables: one value per unit / one scalar
+            import copy
+            fp = FP(400)
+            pm2 = copy.deepcopy(pm)
+            new_tau = [fp() for _ in range(pm.pops['a'].n)]
+            new_g = fp()
+            pm2.pops['a'].params['li/tau'] = new_tau
+            pm2.pops['b'].params['o1/g'] = new_g
+            spec = explicit_spec(pm2)
+            out['exp_spec'] = spec
+            ckw = dict(node_values={'a/li/tau': np.array([float(v) for v in new_tau]), 'b/o1/g': float(new_g)})
     else:
         ct = build_python(spec)
         vec = job['vectorize']
     tally = decide.Tally()
     try:
-        c = tv.compile_template(ct, vectorize=vec, step_size=float(DT), solver='euler')
+        c = tv.compile_template(ct, vectorize=vec, step_size=float(DT), solver='euler', **ckw)
     except tv.CompileError as e:
         return dict(status='compile-raises', error=str(e), exp_spec=spec)
     plugin = None
@@ -282,6 +295,10 @@ def run(tier='quick', seed=0, only=None, verbose=False):
                 for vec in (True, False):
                     jobs.append(dict(key=f"pop:{kind}:{seed}:{i}|explicit|vec={vec}", kind=kind, seed=seed * 100 + i,
                                      build='explicit', vectorize=vec, spec=None))
+    for kind in ('matrix', 'scalar'):
+        for i in range(2 if tier == 'quick' else 8):
+            jobs.append(dict(key=f"pop:{kind}:{seed}:{i}|population|node_values", kind=kind, seed=seed * 100 + i,
+                             build='population', vectorize=True, spec=None, node_values=True))
     if only:
         jobs = [j for j in jobs if only in j['key']]
     for j in jobs:
